@@ -4,7 +4,20 @@ findings, replay files and evidence."""
 import json, os, re, subprocess, sys, time, hashlib, shutil
 
 VERIF = os.path.dirname(os.path.dirname(os.path.abspath(__file__)))
-REPO = os.environ.get("PAROL_REPO", "/repo")
+
+
+def _resolve_repo():
+    """PAROL_REPO, else a sibling checkout `../repo` (scratch worktrees used while developing), else /repo."""
+    e = os.environ.get("PAROL_REPO")
+    if e:
+        return os.path.abspath(e)
+    sib = os.path.abspath(os.path.join(VERIF, "..", "repo"))
+    if os.path.isdir(os.path.join(sib, "crates", "parol")):
+        return sib
+    return "/repo"
+
+
+REPO = _resolve_repo()
 LEAN = os.path.join(VERIF, "lean")
 HARNESS = os.path.join(VERIF, "harness")
 WORK = os.path.join(VERIF, "work")
@@ -53,9 +66,18 @@ def sh(cmd, cwd=None, inp=None, timeout=None, env=None):
 # ---------------------------------------------------------------------------------------------
 # builds
 
+def write_cargo_toml():
+    """harness/Cargo.toml is generated from Cargo.toml.in with the resolved repository path."""
+    tmpl = open(os.path.join(HARNESS, "Cargo.toml.in")).read().replace("@REPO@", REPO)
+    p = os.path.join(HARNESS, "Cargo.toml")
+    if not os.path.exists(p) or open(p).read() != tmpl:
+        open(p, "w").write(tmpl)
+
+
 def build_harness(bins=("pv",)):
     """Rebuilds the harness (and with it the parol crates) from /repo's current working tree,
     hooks on (--cfg parol_verif via harness/.cargo/config.toml). Returns (ok, log)."""
+    write_cargo_toml()
     lock = os.path.join(HARNESS, "Cargo.lock")
     if not os.path.exists(lock):
         shutil.copy(os.path.join(REPO, "Cargo.lock"), lock)
